@@ -8,7 +8,7 @@ from . import lincommon as lc
 
 PROP = "C08"
 HOSTILE = ('scale', 'mean', 'special')
-MONITORS = ("WF", "DENS", "CACHE")
+MONITORS = ("WF", "DENS", "CACHE", "FORM")
 ANCHORS = [("conditional.py", "ConditionalGaussianPDF.affine_marginal_transformation"),
            ("conditional.py", "ConditionalIdentityGaussianPDF.affine_marginal_transformation"),
            ("conditional.py", "ConditionalGaussianPDF.get_conditional_mu"),
